@@ -135,6 +135,28 @@ pub fn seg_data(s: &Seg) -> Vec<u8> {
 pub fn input_data(segs: &[Seg]) -> Vec<u8> {
     let mut v = Vec::new();
     for s in segs {
+        if s.class == "soup" {
+            // short matches everywhere, hardly any redundancy: every 4-byte word is copied from a random place within the
+            // last `period` bytes (keeps the optimal parser looking far ahead while the data stays nearly incompressible)
+            let mut r = gen::Rng::new(s.seed ^ 0x50u64);
+            let w = 4usize;
+            let end = v.len() + s.len;
+            while v.len() < end {
+                let back = s.period.max(w + 1).min(v.len());
+                if back < w + 1 {
+                    v.push(r.byte());
+                    continue;
+                }
+                let src = v.len() - w - r.below((back - w) as u64) as usize;
+                for k in 0..w {
+                    if v.len() < end {
+                        let b = v[src + k];
+                        v.push(b);
+                    }
+                }
+            }
+            continue;
+        }
         v.extend(seg_data(s));
     }
     v
